@@ -17,13 +17,16 @@ LETTERS = [ord(c) for c in "abcdefghijklmnopqrstuvwxyzABCDEFGHIJKLMNOPQRSTUVWXYZ
 NONLETTERS = [ord(c) for c in "0123456789 \t.:,;-/'_#"]
 
 
+TOKEN_BLEED_RULE = ("in every clock pattern (a regex-only rule whose result carries an hour read "
+                    "from the text) a letter-ending token that follows digits or a blank is closed by "
+                    "a letter-boundary assertion, so it cannot swallow the first letters of the next "
+                    "word and hide the shorter reading")
+
+
 def check(ctx, rep, tier):
     eng = get_engine(ctx)
     RELEVANT.names.clear()
-    rep.describe("token-bleed", "in every clock pattern (a regex-only rule whose result carries "
-                 "an hour) a letter-ending token that follows digits or a blank is closed by a "
-                 "letter-boundary assertion, so it cannot swallow the first letters of the next "
-                 "word and hide the shorter reading")
+    rep.describe("token-bleed", TOKEN_BLEED_RULE)
     rep.describe("mirror", "the two gluing rules over the same pair of value kinds in opposite "
                  "order build the same field mapping from their operands")
     rep.describe("glue", "date x clock time: date fields come from the date operand, hour and "
@@ -32,6 +35,7 @@ def check(ctx, rep, tier):
                  "every field unchanged")
     _bleed(ctx, rep, eng)
     _marked_clock_kept(ctx, rep, eng)
+    _clock_never_rejected(ctx, rep, eng)
     _mirror(ctx, rep, eng)
     _absorb(ctx, rep, eng)
     report_undecided(rep, eng, RELEVANT)
@@ -159,6 +163,59 @@ def _bleed(ctx, rep, eng):
                 "without a boundary: it can take the first letters of the next word",
                 witness=None if not bad else {"pattern": rule.pats[0].value[:160]})
     rep.count("clock_patterns", n, 3)
+
+
+def _clock_never_rejected(ctx, rep, eng):
+    """A clock pattern that matched is turned into a clock time: the only rejection is the
+    documented year heuristic for bare hhmm without a clock marker."""
+    from .c05 import _explicit_clock, _military_rules
+    rep.describe("clock-kept", "a clock rule returns a time on every path; only the bare-hhmm rule may "
+                 "reject, and only a match without an explicit clock marker")
+    military = _military_rules(ctx)
+    for rule in ctx.rb.rules:
+        if not (len(rule.pats) == 1 and rule.pats[0].kind == "regex"):
+            continue
+        runs = runs_of(eng, rule)
+        hours = [p.st.heap[p.val.oid].attrs.get("hour") for run in runs for p in run.paths
+                 if p.kind == "ret" and isinstance(p.val, RefV)]
+        hours = [h for h in hours if isinstance(h, IntV) and not sym_mentions(h.sym, ("ts",))]
+        if not (hours and (any(not h.is_const() for h in hours) or len({h.lo for h in hours}) > 1)):
+            continue
+        RELEVANT.add(rule)
+        bad = None
+        n = 0
+        for run in runs:
+            for p in run.paths:
+                if p.kind == "ret" and p.is_none():
+                    n += 1
+                    if rule.name not in military:
+                        bad = bad or "a match of this clock pattern can be rejected"
+                    elif _explicit_clock(ctx, rule, p):
+                        bad = bad or "a match with an explicit clock marker can be rejected"
+                    else:
+                        # the heuristic: the rejection must depend on the reference time or on
+                        # the minute pattern only, not on an am/pm tail or the hour
+                        from .c05 import _conds_mention_ts
+                        extra = [c for c, t in _flat_conds(p.conds)
+                                 if isinstance(c, tuple) and c and c[0] == "cmp"
+                                 and any(isinstance(x, tuple) and x and x[0] == "int" and x[1][2] == "hour"
+                                         for x in c[2:4])]
+                        if extra:
+                            bad = bad or "a bare hhmm match is rejected depending on its hour (not only by " \
+                                "the year heuristic)"
+        rep.add("clock-kept", rule_construct(rule, "match becomes a clock time"), rule.where, bad is None,
+                bad or "{} rejecting paths, all by the year heuristic".format(n))
+
+
+def _flat_conds(conds):
+    out = []
+    for s_, t in conds:
+        if isinstance(s_, tuple) and s_ and s_[0] == "anyof":
+            for conj in s_[1]:
+                out.extend(_flat_conds(conj))
+        else:
+            out.append((s_, t))
+    return out
 
 
 def _marked_clock_kept(ctx, rep, eng):
